@@ -125,6 +125,13 @@ def run(v, rp, fns):
             v.st.trace = v.st.trace + [("!reb_simulation_update_acceleration", None, 0)]
         else:
             v.call(f, rp)
+    errs = v.st.ghost.get("word_errors")
+    if errs:
+        from engine.cexec import PathEnd
+        v.ground("primitive_step_lengths_are_multiples_of_dt", False,
+                 "a sub-step was called with a length that is not a constant multiple of the step size dt: %s" % (errs,))
+        raise PathEnd("word cannot be formed")
+    v.ground("primitive_step_lengths_are_multiples_of_dt", True, "")
     return list(v.st.trace)
 
 
